@@ -53,3 +53,44 @@ Print Assumptions c09_second_access_promotes.
 Theorem c09_demotion_keeps_everything : forall p, Core p -> Permutation (all_items (demoteFromProtected p)) (all_items p).
 Proof. exact demotion_keeps_everything. Qed.
 Print Assumptions c09_demotion_keeps_everything.
+
+(* ---- the hill climber that sizes the admission window, with its float32 arithmetic modelled exactly (Flocq's
+   IEEE 754 binary32; these four theorems therefore rest on the standard library's axioms of the real numbers,
+   which Print Assumptions lists; everything above is axiom-free) *)
+From Verif Require Import Gen.Consts Model.Climber Proof.ClimberP.
+From Flocq Require Import IEEE754.BinarySingleNaN.
+
+(* the restart test in the source of this run: on the ABSOLUTE change of the sample's hit ratio, threshold 1/20 *)
+Theorem c09_climber_source_shape : c_climb_restart = (true, 1, 20).
+Proof. exact climber_shape_as_written. Qed.
+Print Assumptions c09_climber_source_shape.
+
+(* as written: whenever the hit ratio of a sample moved by at least 0.05 in either direction the step is reset to its
+   full size (capacity/16) in the direction the climber now takes; otherwise it decays by the factor 0.98 *)
+Theorem c09_climber_restart_rule : forall c hits misses,
+  let sum := (hits + misses) mod 18446744073709551616 in
+  let delta := if sum =? 0 then B754_zero false else f32_sub (f32_div (f32_of_Z hits) (f32_of_Z sum)) (cl_hr c) in
+  let amount := if f32_ge delta (B754_zero false) then cl_step c else f32_neg (cl_step c) in
+  let full := f32_mul (f32_of_Z (cl_cap c)) k_percent in
+  cl_step (fst (climb_f c hits misses)) =
+    if f64_ge (Babs (f64_of_f32 delta)) (k_restart 1 20)
+    then (if f32_ge amount (B754_zero false) then full else f32_neg full)
+    else f32_mul amount k_decay.
+Proof. exact restart_rule. Qed.
+Print Assumptions c09_climber_restart_rule.
+
+(* for every capacity below 2^61, every sequence of samples (any uint64 counters) and every shape of the restart
+   test, int(amount) stays within +-2^61: the step never exceeds what the constructor or a restart give it *)
+Theorem c09_climber_amounts_in_range : forall shape cap samples, 1 <= cap < 2 ^ 61 ->
+  Forall (fun a => - 2 ^ 61 <= a <= 2 ^ 61) (amounts shape (climber_new cap) samples).
+Proof. exact climber_amounts_in_range. Qed.
+Print Assumptions c09_climber_amounts_in_range.
+
+(* a test on the signed change (seeded change C09b) leaves a sleeping climber asleep when the hit ratio collapses *)
+Theorem c09_one_sided_restart_refuted :
+  let c := mkCl 1000 (f32_of_Z 1) (f32_div (f32_of_Z 1) (f32_of_Z 2)) in
+  snd (climb_shape (true, 1, 20) c 200 800) = 0 /\
+  f32_to_int (cl_step (fst (climb_shape (true, 1, 20) c 200 800))) = -62 /\
+  f32_to_int (cl_step (fst (climb_shape (false, 1, 20) c 200 800))) = 0.
+Proof. exact one_sided_restart_refuted. Qed.
+Print Assumptions c09_one_sided_restart_refuted.
